@@ -1627,7 +1627,18 @@ func (e *Exec) redirectTarget(name string) *ssa.Function {
 		f = e.entry.Pkg.Func(name)
 	}
 	if f == nil {
-		panic(unsupported("redirect target not found in harness package: " + name))
+		// any package of the module under analysis (harness helpers overlaid elsewhere)
+		for _, p := range e.prog.AllPackages() {
+			if isRepoPkg(p) {
+				if g := p.Func(name); g != nil {
+					f = g
+					break
+				}
+			}
+		}
+	}
+	if f == nil {
+		panic(unsupported("redirect target not found: " + name))
 	}
 	if e.redirCache == nil {
 		e.redirCache = map[string]*ssa.Function{}
